@@ -63,7 +63,8 @@ const (
 	FeatNetVariety     = 65536  // short reads (segments split), duplicated mDNS items, write-stall disturbances
 	FeatPairingTies    = 131072 // C10: the peer's approval reaches a hub at the instant its user unregisters / cancels
 	FeatQuickRetry     = 262144 // C18: the application calls the pairing API within 500 ms of a handshake state change
-	FeatAll            = 524287
+	FeatEventOrder     = 524288 // events due at the same instant are ordered by queue, not by creation
+	FeatAll            = 1048575
 )
 
 // SetFeatForRig forces the dual-stack options of the next hub rig (workloads
@@ -368,6 +369,7 @@ func execute1(t *testing.T, spec RunSpec) (res RunResult) {
 
 func runInBubble(t *testing.T, sc *Scenario, spec RunSpec, res *RunResult) {
 	cfg := simrt.Config{Seed: spec.Seed, Replay: spec.Replay, KeepTrace: spec.KeepTrace, Horizon: sc.Horizon, MaxSteps: sc.Steps, Parallel: sc.Parallel, ParallelBudget: 40}
+	cfg.EventOrderByQueue = spec.Feat&FeatEventOrder != 0
 	if sc.Parallel > 0 {
 		// race check: vary how often several tasks are released at once and how far they
 		// run before they park again (these runs are not replayable anyway)
